@@ -73,7 +73,8 @@ class Stats:
         k = key if key is not None else len(self.samples)
         if len(self.samples) < self.max_samples and k not in self.sample_keys:
             self.sample_keys.add(k)
-            self.samples.append(sample if sample is not None else case)
+            # a pre-summarised sample is kept as is; a raw case is summarised by the property at the end
+            self.samples.append({"_s": True, "v": sample} if sample is not None else {"_s": False, "v": case})
 
     def export(self):
         return {
@@ -297,8 +298,7 @@ def run_property(modname, clsname, tier, seed_value, nshards=None):
         violations.append(write_replay(prop.id, f["case"], f["failure"]))
 
     summarize = getattr(prop, "summarize", None)
-    if summarize:
-        samples = [summarize(s) for s in samples]
+    samples = [s["v"] if (s.get("_s") or not summarize) else summarize(s["v"]) for s in samples]
     if not samples:
         samples = ["(no non-trivial sample in this run)"]
     coverage = {
